@@ -81,11 +81,25 @@ def seeded_mutants():
     return out
 
 
+def roundtrip_overrides():
+    """Every module re-emitted by ast.unparse: comments gone, layout and line numbers changed, behaviour identical."""
+    import ast
+    out = {}
+    d = os.path.join(REPO_ROOT, "websocket")
+    for fn in os.listdir(d):
+        if fn.endswith(".py"):
+            out[fn[:-3]] = ast.unparse(ast.parse(open(os.path.join(d, fn), encoding="utf-8").read()))
+    return out
+
+
 def run_one(m):
     from .harness import run_check
     t0 = time.time()
     try:
-        ov = overrides_from_patch(m["patch"]) if "patch" in m else apply_edits(m["edits"])
+        if m.get("roundtrip"):
+            ov = roundtrip_overrides()
+        else:
+            ov = overrides_from_patch(m["patch"]) if "patch" in m else apply_edits(m["edits"])
     except ValueError as e:
         return {"id": m["id"], "status": "STALE", "detail": str(e), "wall": 0}
     res = {}
@@ -115,6 +129,7 @@ def run_one(m):
 
 def selftest(jobs=16, only=None) -> int:
     muts = _load() + seeded_mutants()
+    muts += [{"id": f"spec-reformat-whole-package-{i:02d}", "props": [f"C{i:02d}"], "roundtrip": True, "rules": None, "expect": "silent"} for i in range(1, 21)]
     if only:
         muts = [m for m in muts if only in m["id"] or only in m["props"]]
     t0 = time.time()
